@@ -1,47 +1,62 @@
 """C13 - partitioning an aggregate model (ARM) yields sound per-delegation models (ADMs).
 
 Real code: NetworkXARMGraph.generate_adms / NetworkXADMGraph.rewrite_delegations on the in-memory store.
-Model: FimVerif.Model.Arm (genAdm / generateAdmsS / rekey), trace tables regenerated by gen/armcfg.py.
+Model: FimVerif.Model.Arm (genAdm / generateAdmsS / rekey), configuration fitted to the code by gen/armcfg.py on every run.
 """
 import json
 import os
+import time
 import traceback
 
 from core import LeanDriver, err_kind, canon, CORPUS_DIR, Infra
 from gen import armcfg
 import lib_substrate as L
+import lib_armsynth as SY
 
 ID = "C13"
 GENERATORS = [armcfg.generate]
 LEAN_MODULES = ["FimVerif.Proofs.C13"]
 P = "FimVerif.C13."
 THEOREMS = [P + t for t in (
+    "partition_sound",
     "one_model_per_id", "holders_kept", "only_own_entries", "no_foreign_entries", "sub_model", "stitch_everywhere", "stitch_is_property",
-    "closure_service_owner", "closure_link_peer", "closure_peer_partial", "closure_peer_counterexample",
+    "closure_service_owner", "closure_link_peer", "kept_interfaces_closed", "partition_exact", "partition_exact_extracted",
+    "closure_one_pass_counterexample",
     "arm_untouched", "arm_untouched_needs_fresh", "store_run_is_genAdm",
     "rekey_only_key", "rekey_ok_all", "rekey_partition_ok", "rekey_partition_entry",
-    "rekey_compose", "rekey_present_key_id", "rekey_twice_same", "rekey_there_and_back")]
+    "rekey_compose", "rekey_present_key_id", "rekey_twice_same", "rekey_there_and_back")] + [
+    # the loop of the repaired generate_adms: termination bound and closedness (Proofs/Lemmas/C13Closure.lean)
+    "FimVerif.Arm.linkClose_closed", "FimVerif.Arm.linkClose_sound", "FimVerif.Arm.linkClose_reach"]
 TRUSTED_BASE = [
-    "gen/armcfg.py: AST patterns for the two `for cp in keep_cps` loops of generate_adms, the second-hop drop variable of "
-    "get_first_and_second_neighbor and the selection of get_stitch_nodes",
+    "gen/armcfg.py: the configuration of the model (query tuples and their roles, number of passes of the link trace, connection-point class, "
+    "variant of the second-hop filter, stitch selection) is FITTED to the behaviour of generate_adms / get_first_and_second_neighbor / "
+    "get_stitch_nodes on probe graphs (3840 two-hop queries over every subset of a 10-edge menu, 44 probe ARMs); the source text is not matched, "
+    "so the tie of the configuration to the code is as strong as the probes are discriminating (exactly one member of the model family must fit) - "
+    "the correspondence below re-checks the fitted model on thousands of generated ARMs",
     "Model/Arm.lean mirrors generate_adms / rewrite_delegations by hand over an abstract graph (nodes by NodeID, decoded delegation "
     "properties, undirected edges); checked differentially against NetworkXARMGraph/NetworkXADMGraph on every run",
     "the store is modelled as graph id -> graph (C04/C05 relate the real shared NetworkX store to that abstraction); "
     "Delegations.from_json/to_json of one entry is modelled as the identity on the entry's canonical JSON (C12 covers the codec)",
-    "uuid4 freshness of generated graph ids (an explicit hypothesis of arm_untouched); Python set iteration order",
+    "uuid4 freshness of generated graph ids (an explicit hypothesis of arm_untouched / partition_sound); Python set iteration order; the `while` loop of the "
+    "link trace is modelled with fuel (number of nodes + 1 passes), linkClose_closed proves that this fuel always reaches the loop's regular exit",
 ]
 ASSUMPTIONS = [
     "NodeIDs are unique within the ARM and every edge joins two nodes of the ARM (what the store guarantees for an imported graph)",
     "a delegation property is absent, the marker 'None', or the JSON text of a Delegations object (malformed JSON is outside the quantifier)",
     "distinct delegation ids are given distinct graph ids, none of them the ARM's own id, when more than one delegation id is present "
     "(otherwise the result depends on Python's set order); the single-id case with the ARM's own id is modelled and shown to destroy the ARM",
+    "closure clauses: the edge between a link and its far end / a service and its owner is the only edge between the two (networkx.Graph has no parallel edges)",
 ]
-RULE = ("substrate models built through SubstrateTopology (1-2 sites, workers with NVME/GPU/NIC components, dataplane and P4 switches, "
-        "facility ports sharing one facing port, inter-switch links, stitch nodes) annotated with 1..3 delegation ids, single-resource, "
-        "shared and pooled, plus hand-written 'None'/{}/mixed entries; the four repo advertisements; small raw graphs over the class/"
-        "relation vocabulary. Every model is partitioned, changed through the topology object / another wrapper (patch two free ports, add a "
-        "delegated worker, remove a node) and partitioned again on the SAME ARM object and on a fresh wrapper, 3 rounds; every partition "
-        "is re-keyed in chains (own graph id twice, present key, a->b->a; delegations named after their graph id). "
+RULE = ("(a) 2400 (quick) / 14000 (thorough) small synthetic ARMs written straight into the store (harness/lib_armsynth.py: a dataplane switch with service and "
+        "ports, workers with components / NIC services / ports, facilities behind a shared facing port, patch and inter-switch links; 5-40 nodes) with 1..4 "
+        "delegation ids - every element delegated to its family's id, another id, two ids or nobody; label-only / capacity-only / both; pool definition + "
+        "references (also for another id); 'None' marker, empty object; stitch switches/services/ports; links whose ends are delegated differently; "
+        "multi-link ports; 12% unstructured graphs over the class/relation vocabulary; every 8th with the run on the store (bystander graph) resp. re-key "
+        "chains, every 32nd as a 3-partition history on the SAME ARM object with changes through another wrapper; "
+        "(b) substrate models built through SubstrateTopology (sites with workers, NVME/GPU/NIC components, dataplane and P4 switches, facility ports, stitch "
+        "nodes) annotated through annotate_delegations_and_pools with 1..3 ids, changed through the topology object between partitions; "
+        "(c) the four repo advertisements, corner graphs, corpus. Every partition is also taken through a fresh wrapper where a history is run; partitions "
+        "are re-keyed in chains (own graph id twice, present key, a->b->a; delegations named after their graph id). "
         "non-trivial = at least 2 delegation ids; distinct by canonical ARM snapshot")
 
 CP, LINK, NS, NN, COMP = "ConnectionPoint", "Link", "NetworkService", "NetworkNode", "Component"
@@ -196,7 +211,7 @@ CORNER_HISTORIES = [
 ]
 
 
-def gen_cases(ctx, rng, n):
+def gen_cases(ctx, rng, n, nsynth=0):
     """case descriptors: corner graphs, corner histories, corpus (the four repo advertisements, minimised past failures), generated"""
     cases = []
     for i, w in enumerate(CORNER_RAW):
@@ -216,18 +231,33 @@ def gen_cases(ctx, rng, n):
         if r < 0.25:
             cases.append({"kind": "raw", "name": "rand%d" % i, "wire": raw_case(rng), "mseed": "%s/%d" % (ctx.seed, i)})
         else:
-            size = rng.choice([0, 1, 1, 1, 2]) if ctx.thorough else rng.choice([0, 0, 1, 1, 1, 1, 2])
+            size = rng.choice([0, 1, 1, 1, 2]) if ctx.thorough else rng.choice([0, 0, 0, 1, 1])
             k = rng.choice([1, 2, 2, 3, 3])
             mode = "single" if rng.random() < 0.12 else "mixed"
             cases.append({"kind": "gen", "seed": "%s/%d/%d" % (ctx.seed, i, rng.randrange(10 ** 6)), "size": size,
-                          "ids": ["alpha", "beta", "gamma"][:k] if mode == "mixed" else ["primary"], "mode": mode})
+                          "ids": ["alpha", "beta", "gamma"][:k] if mode == "mixed" else ["primary"], "mode": mode,
+                          **({} if ctx.thorough else {"rounds": 2})})
+    # the cheap stream: small synthetic ARMs written straight into the store (lib_armsynth), one partition each; every 8th with the
+    # run on the store (bystander graph) and re-key chains, every 16th as a 3-partition history on the same ARM object
+    for i in range(nsynth):
+        if rng.random() < 0.12:
+            w, hist = raw_case(rng), {"shape:unstructured": 1}
+        else:
+            r = rng.random()
+            w, hist = SY.synth_case(rng, big=ctx.thorough and r < 0.05, tiny=r > 0.3)
+        c = {"kind": "synth", "name": "synth%d" % i, "wire": w, "mseed": "%s/s%d" % (ctx.seed, i), "features": hist,
+             "rounds": 1, "fresh": False, "store": i % 8 == 0, "rekey": i % 8 == 4}
+        if i % 32 == 5:
+            c.update(history=SY.synth_history(rng, w, 2), fresh=True)
+            del c["rounds"]
+        cases.append(c)
     # graph-id assignment: explicit distinct ids (most), default uuid4, the delegation's own name ("named": the key is already the
     # graph id when the partition is re-keyed), or - single delegation id only - the ARM's own id
     for c in cases:
         r = rng.random()
         if c.get("guids") is None:
             c["guids"] = "uuid" if r < 0.15 else "self" if r < 0.22 else "named" if r < 0.4 else "explicit"
-        c["bystander"] = rng.random() < 0.5
+        c["bystander"] = rng.random() < 0.5 and c.get("store", True)
         c.setdefault("rounds", 3)
     return cases
 
@@ -461,7 +491,8 @@ def run_impl(c):
         rd.update(before=before, order=list(before["nodes"]), ids=del_ids(before))
         guids = _guids_for(c["guids"], rd["ids"], arm_id, "adm-of-")
         rd["guids"] = guids
-        if k == 0:
+        want_store = k == 0 and c.get("store", True)
+        if want_store:
             rd["store_before"] = {x: norm(L.snapshot(g, x)) for x in L.store_graph_ids(imp)}
         rd["same"], adms = _partition(arm, guids)
         rd["arm_after"] = L.snapshot(g)
@@ -469,9 +500,9 @@ def run_impl(c):
         if "error" in rd["same"]:
             break
         own = arm_id in rd["same"]["adm_ids"].values()
-        if k == 0:
+        if want_store:
             rd["store_after"] = {x: norm(L.snapshot(g, x)) for x in L.store_graph_ids(imp)}
-        if k == 0 or k == nrounds - 1:
+        if (k == 0 or k == nrounds - 1) and c.get("rekey", True):
             rd["rekey"] = {}
             for i, (d, a) in enumerate(sorted(adms.items())):
                 if a.graph_id == arm_id:
@@ -488,6 +519,8 @@ def run_impl(c):
                 rd["rekey"][d] = steps
         if own:
             break
+        if not c.get("fresh", True):
+            continue
         # the same model through a fresh ARM wrapper
         fresh = NetworkXARMGraph(graph=NetworkXPropertyGraph(graph_id=arm_id, importer=imp))
         rd["fresh"], _ = _partition(fresh, _guids_for("explicit", rd["ids"], arm_id, "fresh-of-"))
@@ -504,6 +537,39 @@ def case_payload(c, r, upto):
 
 
 # ---------------------------------------------------------------------------
+# running many cases: the cheap synthetic stream is spread over a few forked worker processes (every case is self-contained and
+# seeded by its descriptor, so the results do not depend on the scheduling); VERIF_C13_PROCS=1 runs everything in this process
+
+
+def _run_one(c):
+    try:
+        return run_impl(c)
+    except Exception:
+        return {"crash": traceback.format_exc()[-1500:]}
+
+
+def run_many(cases):
+    """-> [run_impl(c) for c in cases]; a harness crash on a case is an infrastructure error"""
+    procs = int(os.environ.get("VERIF_C13_PROCS", "4"))
+    par = [i for i, c in enumerate(cases) if c["kind"] == "synth"]
+    out = [None] * len(cases)
+    if procs > 1 and len(par) >= 64:
+        try:
+            import multiprocessing as mp
+            with mp.get_context("fork").Pool(procs) as pool:
+                for i, r in zip(par, pool.map(_run_one, [cases[i] for i in par], chunksize=16)):
+                    out[i] = r
+        except (OSError, ImportError, ValueError):
+            pass            # no worker processes here: run them below
+    for i, c in enumerate(cases):
+        if out[i] is None:
+            out[i] = _run_one(c)
+        if "crash" in out[i]:
+            raise Infra("C13 harness could not run case %s: %s" % (canon({k: v for k, v in c.items() if k not in ("wire", "history")})[:200], out[i]["crash"]))
+    return out
+
+
+# ---------------------------------------------------------------------------
 # correspondence
 
 _RUNS = []      # (case, result) of the correspondence, re-checked by the oracle
@@ -511,7 +577,7 @@ _RUNS = []      # (case, result) of the correspondence, re-checked by the oracle
 
 def correspondence(ctx, res):
     rng = ctx.sub_rng("corr")
-    cases = gen_cases(ctx, rng, ctx.scale(24, 150))
+    cases = gen_cases(ctx, rng, ctx.scale(8, 120), ctx.scale(2400, 14000))
     reqs, expect, meta = [], [], []
     del _RUNS[:]
 
@@ -519,14 +585,15 @@ def correspondence(ctx, res):
         reqs.append(rq)
         expect.append(ex)
         meta.append(c)
-    for c in cases:
-        try:
-            r = run_impl(c)
-        except Exception:
-            raise Infra("C13 harness could not run case %s: %s" % (canon({k: v for k, v in c.items() if k != "wire"})[:200], traceback.format_exc()[-1500:]))
+    t0 = time.time()
+    results = run_many(cases)
+    t_impl = time.time() - t0
+    for c, r in zip(cases, results):
         _RUNS.append((c, r))
         res.count("kind:" + c["kind"])
         res.count("rounds:%d" % len(r["rounds"]))
+        for f, v in c.get("features", {}).items():
+            res.count("synth:" + f)
         for k, rd in enumerate(r["rounds"]):
             w = to_wire(rd["before"], rd["order"])
             res.count("ids:%d" % len(rd["ids"]))
@@ -548,7 +615,7 @@ def correspondence(ctx, res):
             if "error" in rd["same"]:
                 continue
             # 2. the run as store operations (clone under the given graph ids, bystander graph present)
-            if k == 0:
+            if "store_before" in rd:
                 gmap = rd["same"]["adm_ids"]
                 store = [[x, (w if x == r["arm_id"] else to_wire(s_))] for x, s_ in rd["store_before"].items()]
                 add(["adms_store", store, r["arm_id"], [[d, x] for d, x in sorted(gmap.items())]], ["ok", dict(gmap), rd["store_after"]], c)
@@ -583,7 +650,10 @@ def correspondence(ctx, res):
             steps.append([bool(raised), norm(L.snapshot(adm))])
             res.count("rekey-raw:" + ("raised:%s" % raised if raised else "ok"))
         add(["rekeys", to_wire(norm(from_wire(w)), order), [x or "adm-x" for x in xs]], ["ok", steps], {"kind": "raw-rekey", "wire": w})
+    t0 = time.time()
     model = LeanDriver(ID).run([json.dumps(r) for r in reqs])
+    ctx.notes.append("C13 correspondence: %d cases on the implementation in %.1fs, %d requests through the Lean driver in %.1fs"
+                     % (len(cases), t_impl, len(reqs), time.time() - t0))
     for rq, ex, m, c in zip(reqs, expect, model, meta):
         res.evaluations += 1
         res.count("op:" + rq[0])
@@ -766,14 +836,16 @@ def check_run(c, r, res):
             check_rekey_chain(rd["same"]["adms"][d], steps, res, case, tag)
 
 
-def oracle(ctx, res, n=None):
+def oracle(ctx, res, n=None, nsynth=None):
     rng = ctx.sub_rng("oracle")
     runs = list(_RUNS) if n is None else []
-    cases = gen_cases(ctx, rng, n or ctx.scale(14, 110))
+    cases = gen_cases(ctx, rng, n or ctx.scale(4, 80), nsynth or ctx.scale(1500, 10000))
     if runs:
-        cases = [c for c in cases if c["kind"] == "gen" or c.get("name", "").startswith("rand")]   # corners/corpus were run already
-    for c in cases:
-        runs.append((c, run_impl(c)))
+        cases = [c for c in cases if c["kind"] in ("gen", "synth") or c.get("name", "").startswith("rand")]   # corners/corpus were run already
+    t0 = time.time()
+    runs += list(zip(cases, run_many(cases)))
+    t_impl = time.time() - t0
+    t0 = time.time()
     for c, r in runs:
         res.evaluations += len(r["rounds"])
         res.count("kind:" + c["kind"])
@@ -782,12 +854,14 @@ def oracle(ctx, res, n=None):
             if len(rd["ids"]) >= 2:
                 res.nontrivial.add(canon(norm(rd["before"])))
         check_run(c, r, res)
+    ctx.notes.append("C13 oracle: %d further cases on the implementation in %.1fs, all clauses checked on %d runs in %.1fs"
+                     % (len(cases), t_impl, len(runs), time.time() - t0))
     res.sample({"case": {k: v for k, v in runs[-1][0].items() if k not in ("wire", "history")},
                 "checked": "all C13 clauses on every partition (same ARM object and fresh wrapper) and every re-key step"})
 
 
 def search(ctx, res, broken):
-    oracle(ctx, res, n=ctx.scale(60, 600))
+    oracle(ctx, res, n=ctx.scale(30, 300), nsynth=ctx.scale(6000, 40000))
 
 
 def replay(ctx, payload):
